@@ -120,12 +120,21 @@ Proof. exact rans4x8_o0_core_roundtrip. Qed.
 Print Assumptions c08_rans4x8_o0_core_roundtrip.
 
 (* freq_table_roundtrip: the run-length coded table written by write_frequencies is read back by
-   the specification's ReadFrequencies0, for every table in which some symbol occurs *)
+   the specification's ReadFrequencies0 and passes the validation of its total (<= 4096, as the
+   repaired noodles decoder demands, 8832bc0), for every table in which some symbol occurs *)
 Theorem c08_freq_table_roundtrip : forall F rest,
   length F = 256%nat -> Forall (fun g => g < 4294967296) F -> (exists i, nth i F 0 <> 0) ->
+  sumN F <= 4096 ->
   spec_read_frequencies0 (write_frequencies F ++ rest) = Some (F, rest).
 Proof. exact freq_table_roundtrip. Qed.
 Print Assumptions c08_freq_table_roundtrip.
+
+(* a table adding up to more than 4096 is REJECTED at read (an error, never a later overflow of
+   the cumulative table or of the 32-bit state) *)
+Theorem c08_freq_table_total_rejected : forall bs F r,
+  spec_read_frequencies0_raw bs = Some (F, r) -> 4096 < sumN F -> spec_read_frequencies0 bs = None.
+Proof. exact freq_table_total_rejected. Qed.
+Print Assumptions c08_freq_table_total_rejected.
 
 (* THE order-0 statement: for EVERY byte string (shorter than 2^32, the limit of the header) the
    encoder terminates without panicking and the independent specification decoder maps the
@@ -230,6 +239,34 @@ Theorem c08_nx_cat_roundtrip : forall f src,
 Proof. exact nx_cat_roundtrip. Qed.
 Print Assumptions c08_nx_cat_roundtrip.
 
+(* the repaired decoder (497e771, 464651e): what used to be panics are io::Errors *)
+Theorem c08_nx_cat_short_payload_is_error : forall f size payload usize,
+  f_stripe f = false -> f_pack f = false -> f_rle f = false -> f_cat f = true ->
+  f_nosize f = false -> size < 4294967296 -> N.of_nat (length payload) < size ->
+  nx_decode (byte_of_flags f :: write_uint7 size ++ payload) usize = DErr.
+Proof. exact nx_cat_short_payload_is_error. Qed.
+Print Assumptions c08_nx_cat_short_payload_is_error.
+
+Theorem c08_nx_cat_long_payload_is_cut : forall f src extra usize,
+  f_stripe f = false -> f_pack f = false -> f_rle f = false -> f_cat f = true ->
+  f_nosize f = false -> N.of_nat (length src) < 4294967296 ->
+  nx_decode (byte_of_flags f :: write_uint7 (N.of_nat (length src)) ++ src ++ extra) usize = DOk src.
+Proof. exact nx_cat_long_payload_is_cut. Qed.
+Print Assumptions c08_nx_cat_long_payload_is_cut.
+
+Theorem c08_nx_pack_bad_value_is_error : forall table w cs s rest n,
+  pack_geom (length table) = Some (S cs, w) -> (1 <= n)%nat ->
+  N.of_nat (length table) <= s mod w ->
+  pack_decode table (s :: rest) n = DErr.
+Proof. exact pack_decode_bad_value_is_error. Qed.
+Print Assumptions c08_nx_pack_bad_value_is_error.
+
+(* for EVERY byte string and caller-supplied size the model of the repaired Nx16 decoder (flag
+   byte, sizes, PACK / RLE contexts, CAT payload, RLE and PACK expansion) has no panicking path *)
+Theorem c08_nx_decode_never_panics : forall bs usize, nx_decode bs usize <> DPanic.
+Proof. exact nx_decode_never_panics. Qed.
+Print Assumptions c08_nx_decode_never_panics.
+
 (* NOT proved as a whole: the streams with PACK and/or RLE contexts (the component round trips
    above composed with the context layouts); compared with the implementation only *)
 Definition c08_nx_xform_full_statement : Prop := nx_xform_full_statement.
@@ -296,3 +333,12 @@ Example c08_nx_xform_examples :
   rt 224 s1 = DOk s1 /\ rt 96 s2 = DOk s2 /\ rt 128 s3 = DOk s3 /\ rt 160 s4 = DOk s4 /\
   nx_encode_byte 128 s3 = NxOk [160; 50; 1; 66; 0] /\ nx_encode_byte 0 s2 = NxEntropy.
 Proof. vm_compute. repeat split. Qed.
+
+(* the repaired decoder on the former panic inputs: the 2-byte stream `20 01` (CAT, one byte
+   declared, none present), a packed value outside an 11-symbol table, a 4x8 table of total 4097 *)
+Example c08_former_decoder_panics_are_errors :
+  nx_decode [32; 1] 0 = DErr /\
+  pack_decode [1; 2; 3; 4; 5; 6; 7; 8; 9; 10; 11] [13] 2 = DErr /\
+  spec_read_frequencies0 [97; 144; 0; 99; 1; 0] = None /\
+  spec_read_frequencies0_raw [97; 144; 0; 99; 1; 0] <> None.
+Proof. vm_compute. repeat split. discriminate. Qed.
